@@ -23,6 +23,7 @@ type c17Case struct {
 	BodySeed  int64  `json:"body_seed"`
 	Chunked   bool   `json:"chunked"`
 	Resp      int    `json:"resp_class"`
+	WS        bool   `json:"ws,omitempty"` // WebSocket upgrade request (Connection: Upgrade, Upgrade: websocket)
 	PathClass string `json:"path_class"`
 	QClass    string `json:"query_class"`
 }
@@ -166,6 +167,9 @@ func c17Headers(c *c17Case, sessionCookie string) [][2]string {
 	}
 	if !cookieDone {
 		add("Cookie", sessionCookie)
+	}
+	if c.WS {
+		add("Connection", "Upgrade", "Upgrade", "websocket", "Sec-WebSocket-Key", "dGhlIHNhbXBsZSBub25jZQ==", "Sec-WebSocket-Version", "13", "Sec-WebSocket-Protocol", "chat, superchat", "Origin", "http://proxy.test")
 	}
 	return h
 }
@@ -312,7 +316,16 @@ func c17RandBody(r *rand.Rand, c *c17Case, thorough bool) {
 
 var c17Hosts = []string{"proxy.test", "proxy.test", "proxy.test", "proxy.test:8443", "Other.Example", "[::1]:4180", "10.1.2.3"}
 
-const c17RespClasses = 18 // 14..17 start with 103 Early Hints
+const c17RespClasses = 21 // 14..17 start with 103 Early Hints; 18..20 the upstream aborts (mid chunked body / before headers / short of its Content-Length)
+
+// response classes used only for WebSocket upgrade requests
+const (
+	c17RespTunnel  = 30 // 101 Switching Protocols, then a small dialogue through the tunnel
+	c17RespRefuse  = 31 // plain 403, no protocol switch
+	c17RespPlainOK = 32 // plain 200 with a body, no protocol switch
+)
+
+var c17WSHdrClasses = []string{"plain", "plain", "xff", "cookies", "forwarded", "unusual", "dups", "spoof-identity"}
 
 func c17RandResp(r *rand.Rand) int {
 	switch k := r.Intn(100); {
@@ -354,10 +367,18 @@ func c17CoreCases(s *c17Set, thorough bool) []*c17Case {
 			paths = append(paths, p[:k]+"%2F"+p[k+1:])
 		}
 	}
+	if s.Light {
+		paths = nil
+	}
 	paths = append(paths, s.Bases...)
 	var out []*c17Case
 	for _, p := range paths {
 		out = append(out, &c17Case{Method: "GET", Path: p, Host: "proxy.test", HdrClass: "plain", BodyKind: "none"})
+	}
+	for i, b := range s.Bases { // WebSocket upgrades and upstream aborts
+		out = append(out, &c17Case{Method: "GET", Path: c17PathFrom(b, "socket%2Froom"), Query: "?x=1", QClass: "plain", Host: "proxy.test", HdrClass: "plain", BodyKind: "none", WS: true, Resp: c17RespTunnel + i%3})
+		out = append(out, &c17Case{Method: "GET", Path: c17PathFrom(b, "ws/a%20b"), Query: []string{"", "?", "?e", "?q=a+b&r=%zz"}[i%4], QClass: "plain", Host: "proxy.test:8443", HdrClass: "xff", BodyKind: "none", WS: true, Resp: c17RespTunnel + (i+1)%3})
+		out = append(out, &c17Case{Method: []string{"GET", "POST"}[i%2], Path: c17PathFrom(b, "abort"), Host: "proxy.test", HdrClass: "plain", BodyKind: "none", Resp: 18 + i%3})
 	}
 	for i, b := range s.Bases { // informational (1xx) responses before the final status
 		out = append(out, &c17Case{Method: []string{"GET", "POST", "HEAD", "PUT"}[i%4], Path: c17PathFrom(b, "hint"), Host: "proxy.test", HdrClass: "plain", BodyKind: "none", Resp: 14 + i%4})
@@ -403,6 +424,11 @@ func c17RandomCase(r *rand.Rand, s *c17Set, thorough bool) *c17Case {
 	c.HdrClass = c17HdrClasses[r.Intn(len(c17HdrClasses))]
 	c17RandBody(r, c, thorough)
 	c.Resp = c17RandResp(r)
+	if r.Intn(100) < 7 && !strings.Contains(c.Path, "big.bin") {
+		c.WS, c.Method, c.BodyKind, c.BodyLen, c.Chunked = true, "GET", "none", 0, false
+		c.HdrClass = c17WSHdrClasses[r.Intn(len(c17WSHdrClasses))]
+		c.Resp = c17RespTunnel + r.Intn(3)
+	}
 	return c
 }
 
